@@ -4,6 +4,8 @@ import (
 	"fmt"
 	"math"
 	"math/rand/v2"
+	"reflect"
+	"strings"
 	"sync"
 	"testing"
 
@@ -21,8 +23,9 @@ type c02Universe struct {
 }
 
 var c02U = c02Universe{
-	ids:      []string{vk.HexOf("c02 id 0"), vk.HexOf("c02 id 1"), vk.HexOf("c02 id 2"), vk.HexOf("c02 id 3")},
-	authors:  []string{vk.FakePub(0), vk.FakePub(1), vk.FakePub(2)},
+	// the last id / author is the first one spelled in upper case: a different string
+	ids:      []string{vk.HexOf("c02 id 0"), vk.HexOf("c02 id 1"), vk.HexOf("c02 id 2"), vk.HexOf("c02 id 3"), strings.ToUpper(vk.HexOf("c02 id 0"))},
+	authors:  []string{vk.FakePub(0), vk.FakePub(1), vk.FakePub(2), strings.ToUpper(vk.FakePub(0))},
 	kinds:    []int64{0, 1, 5, 30000},
 	tagNames: []string{"e", "p", "t", "E", "client", "expiration", "title", "pow", "Emoji"},
 	// "itle" and "ow": a multi-letter tag name followed by its value must not read like a
@@ -127,7 +130,7 @@ func c02Filter(r *rand.Rand, withLimit bool) *mocrelay.ReqFilter {
 
 func TestVerif_C02(t *testing.T) {
 	rep := vk.NewReport(t, "C02", "exploration")
-	rep.Rule = "events and filters drawn from a tiny universe (4 ids, 3 authors, 4 kinds, 9 tag names x 5 values (two of them suffixes of multi-letter tag names), timestamps 0..5 and, one time in eight, a boundary value: ends of the int64 range and the points where conversions to time.Time, float64 or int32 wrap); every filter field independently absent/empty/singleton/multi; a case is one (event, filter) pair or one (event sequence, filter list) limit run; 400/8000 matchers are each used by four goroutines at once; non-trivial = the filter has at least one condition present; distinct = distinct (presence mask, per-condition outcome vector) for pairs, distinct (limit vector, done-prefix pattern) for sequences"
+	rep.Rule = "events and filters drawn from a tiny universe (4 ids and 3 authors plus an upper-case spelling of one of each, 4 kinds, 9 tag names x 5 values (two of them suffixes of multi-letter tag names), timestamps 0..5 and, one time in eight, a boundary value: ends of the int64 range and the points where conversions to time.Time, float64 or int32 wrap); every filter field independently absent/empty/singleton/multi; a case is one (event, filter) pair or one (event sequence, filter list) limit run; 400/8000 matchers are each used by four goroutines at once; non-trivial = the filter has at least one condition present; distinct = distinct (presence mask, per-condition outcome vector) for pairs, distinct (limit vector, done-prefix pattern) for sequences"
 	defer rep.Finish()
 
 	nPairs := vk.N(200_000, 5_000_000)
@@ -196,6 +199,21 @@ func TestVerif_C02(t *testing.T) {
 					fs[i] = &mocrelay.ReqFilter{Limit: fs[i].Limit, Kinds: fs[i].Kinds}
 				}
 			}
+			if nf >= 2 && r.IntN(6) == 0 && fs[0].Limit != nil {
+				fs[1].Limit = fs[0].Limit // two filters of the list sharing one limit variable
+			}
+			before := make([]*mocrelay.ReqFilter, nf)
+			for i := range fs {
+				before[i] = vk.CloneFilter(fs[i])
+			}
+			// a second matcher over the very same filter values, used up first: matchers do not
+			// share state through the filters they were built from
+			if r.IntN(4) == 0 {
+				other := mocrelay.NewReqFiltersEventLimitMatcher(fs)
+				for j := 0; j < 8; j++ {
+					other.LimitMatch(c02Event(r))
+				}
+			}
 			m := mocrelay.NewReqFiltersEventLimitMatcher(fs)
 			counts := make([]int64, nf)
 			refDone := func() bool {
@@ -251,6 +269,12 @@ func TestVerif_C02(t *testing.T) {
 					lim += "n"
 				} else {
 					lim += fmt.Sprint(*f.Limit)
+				}
+			}
+			for i := range fs {
+				if !reflect.DeepEqual(fs[i], before[i]) && !bad {
+					rep.Violation("limit/filter-mutated", "feeding events to the limit-counting matcher changed the caller's filter value", map[string]any{"before": before[i], "after": fs[i]})
+					bad = true
 				}
 			}
 			if nf > 0 {
